@@ -193,6 +193,7 @@ def run(chk, repo):
     sec_split_rebase(chk, repo, 'C03.j')
     stop_lost_scan(chk, repo, 'C03.k')
     stage_comparator_per_node(chk, repo, 'C03.l')
+    start_gain_decision(chk, repo, 'C03.m')
 
 
 def sec_variant_filter(chk, repo, rid):
@@ -352,3 +353,41 @@ def stage_comparator_per_node(chk, repo, rid):
         chk.ob(rid, 'the sort key is built from the comparator chosen in this call', repo.loc(f, c), not bad,
                f"the cursors are ranked with {sorted(set(bad))}: a value kept on the traversal object, chosen for an earlier node "
                "(in-frame and frame-shifted nodes need different comparators)", key=f.qual + '::comparator-fresh', fn=f.qual)
+
+
+
+def start_gain_decision(chk, repo, rid):
+    """Decision function: which variants of the start node go into the start-gain set of a cursor that leaves a novel start
+    (call_and_stage_known_orf_not_in_cds).  Per variant of target_node the set receives it iff
+        is_frameshifting()  or  (location.start > start_index and is_stop_altering)
+    - a frameshift counts wherever it lies in the node (an indel anchored on the start codon shifts everything behind it), a
+    stop-altering variant only behind the start.  The condition under which `<set>.add(variant.variant)` is reached in the loop
+    over target_node.variants is built as one boolean expression (sem.emit_condition) and compared by truth table."""
+    from sa import sem
+    chk.rule(rid, 'decision: frameshifting variants of the start node always enter the start-gain set; stop-altering ones only behind the start', 1)
+    chk.clauses.append('C03.m in call_and_stage_known_orf_not_in_cds a variant of the start node enters start_gain iff it is frameshifting, or it starts behind the start index and alters the stop (position does not gate frameshifts): downstream labels name the frameshift they depend on')
+    f = repo.func('svgraph.PeptideVariantGraph:PeptideVariantGraph.call_and_stage_known_orf_not_in_cds')
+    chk.uses(f)
+
+    def is_add(st):
+        return isinstance(st, ast.Expr) and isinstance(st.value, ast.Call) and call_name(st.value) == 'add' and len(st.value.args) == 1
+    loops = [l for l in ast.walk(f.node) if isinstance(l, ast.For) and unparse(l.iter) == 'target_node.variants' and isinstance(l.target, ast.Name)
+             and any(is_add(x) for x in ast.walk(l))]
+    if len(loops) != 1:
+        chk.undecided(rid, 'start-gain of the start node', f.where, f"{len(loops)} loops over target_node.variants that add to a set found", key=f.qual + '::start-gain-decision', fn=f.qual)
+        return
+    v = loops[0].target.id
+    ec = sem.emit_condition(f.node, loops[0].body, is_add, allow_calls=('is_frameshifting', 'get_query_index'))
+    if ec is None:
+        chk.undecided(rid, 'start-gain of the start node', repo.loc(f, loops[0]), 'the condition of the add could not be expressed as one decision', key=f.qual + '::start-gain-decision', fn=f.qual)
+        return
+    want = ast.parse(f"{v}.variant.is_frameshifting() or ({v}.location.start > start_index and {v}.is_stop_altering)", mode='eval').body
+    # the tests inside ec are expanded to their definitions; expand the names of the stated decision the same way (at the first statement of the loop body)
+    want = sem.expand_names(f.node, loops[0].body[0], want, allow_calls=('is_frameshifting', 'get_query_index'), keep=(v,))
+    eqv, wit = sem.tt_equal(ec[0], want)
+    if eqv is None:
+        chk.undecided(rid, 'start-gain of the start node', repo.loc(f, loops[0]), f"truth table too large ({wit})", key=f.qual + '::start-gain-decision', fn=f.qual)
+        return
+    chk.ob(rid, 'add <=> frameshifting or (behind the start and stop-altering)', repo.loc(f, loops[0]), eqv,
+           f"the start-gain decision differs when {sorted(k for k, x in (wit or {}).items() if x)} hold and {sorted(k for k, x in (wit or {}).items() if not x)} do not "
+           "(a frameshifting variant anchored on the start codon is dropped from the labels of everything downstream)", key=f.qual + '::start-gain-decision', fn=f.qual)
